@@ -355,7 +355,7 @@ Section UB.
   Proof.
     intros Hone. pose proof Hd as [Hw Hh].
     unfold motionDetector_updateBackground.
-    cbv zeta. rewrite set_bgframes_undo. rewrite Hone. cbn [Z.eqb Pos.eqb].
+    cbv zeta. rewrite set_bgframes_undo. md_norm. rewrite Hone. cbn [Z.eqb Pos.eqb negb]. cbv iota.
     rewrite c_f64_lit. cbv beta. conf Hc.
     rewrite <- (set_wts_id w0) at 1.
     run_loop sinv s1 w1 H1.
@@ -461,8 +461,8 @@ Section UB.
   Proof.
     intros Hone. pose proof Hd as [Hw Hh].
     unfold motionDetector_updateBackground.
-    cbv zeta. rewrite set_bgframes_undo.
-    destruct (Z.eqb_spec (motionDetector_backgroundFrames d) 1) as [|_]; [contradiction|].
+    cbv zeta. rewrite set_bgframes_undo. md_norm.
+    destruct (Z.eqb_spec (motionDetector_backgroundFrames d) 1) as [|_]; [contradiction|]. cbn [negb]. cbv iota.
     rewrite c_f64_lit. cbv beta. conf Hc.
     rewrite <- (set_wts_id w0) at 1. rewrite <- (set_pix_id w0 (H_BG c)) at 1.
     run_loop (fun y => ninv y (d_edge c)) s1 w1 H1.
